@@ -272,7 +272,7 @@ def solve(ob: Obligation) -> None:
         s = _mk_solver(ob, max(1000, int(Z3_TIMEOUT_MS * share)), mbqi)
         r = s.check()
         ob.backend = "z3-api" if mbqi else "z3-api(ematching)"
-        if r == z3.unsat or (r == z3.sat and mbqi):
+        if r == z3.unsat or (r == z3.sat and (mbqi or ob.kind == "cover")):
             break
         r = z3.unknown if r == z3.sat else r  # a sat answer without MBQI is not trusted for quantified problems
     if r == z3.unknown:
